@@ -1,5 +1,5 @@
 SPECIFICATION RSpec
-CONSTANTS PairSrc = "all" CtxU = "mid" MaxFlow = 0 KeyU = "six" Writ = "all"
+CONSTANTS PairSrc = "all" CtxU = "mid" MaxFlow = 0 KeyU = "six" Writ = "all" NObj = 0
 INVARIANT KeyCharStep
 INVARIANT ProjPartStep
 INVARIANT OwnerStep
